@@ -251,6 +251,11 @@ def run(ctx):
     tn = U(ng.node)
     okn = "self.get_bin_left_edges(i)[j].item()" in tn and "self.get_bin_right_edges(i)[j].item()" in tn and "for i, j in enumerate(index)" in tn \
         and "self._frequencies[index].item()" in tn
+    # ... returned exactly when every axis got an integer
+    conds_n = [n for n in ast.walk(ng.node) if isinstance(n, ast.If) and any(isinstance(b, ast.Return) and isinstance(b.value, ast.Tuple) for b in n.body)]
+    ixn = [p for p in ng.params() if p != "self"][0]
+    okn = okn and len(conds_n) == 1 and U(conds_n[0].test) in (f"len({ixn}) == self.ndim and all((isinstance(i, int) for i in {ixn}))",
+                                                                 f"all((isinstance(i, int) for i in {ixn})) and len({ixn}) == self.ndim")
     ctx.check(okn, "C11.e", "HistogramND.__getitem__:all-int", "edges (left_i[j], right_i[j]) per axis and the content at the index tuple",
               "the all-integer case does not return the per-axis edges at (i, j) and the content at that tuple", ng.where)
 
